@@ -7,6 +7,7 @@ from the current headers in the examples — every image state, every tail.
 Helper lemmas: DSProofs/Lemmas/WireHll*.lean.
 -/
 import DSProofs.Lemmas.WireHllSize
+import DSProofs.Lemmas.WireHllPerm
 import DSModel.Wire.HllGen
 
 namespace DS.Wire.Hll
@@ -40,6 +41,31 @@ theorem size_le_max_partial (c : Consts) (hL : c.lgInitListSize ≤ 3) (s : Img)
     (hu : s.hdr.compact c = false) (hg : auxNotGrown c s) :
     serializedSize c s ≤ maxSerializedSize c s.hdr.lgK s.hdr.tgt :=
   size_le_max_of_WF c hL s hw hu hg
+
+/-- The documented table-order freedom, set mode: two set images that differ only in the ORDER of the stored coupon
+slots (what deserialize + re-serialize of a compact set image may change, `permRange`) report the same API content. -/
+theorem project_set_perm (c : Consts) (s : SetImg) (slots' : List Nat) (hp : slots'.Perm s.slots) :
+    project c (.set { s with slots := slots' }) = project c (.set s) := by
+  simp only [project, SetImg.nonzero]
+  rw [couponsStr_perm (hp.filter _)]
+
+/-- … and HLL_4: permuting the aux table (compact: the pairs; updatable: the slots of the open-addressing table) does
+not change the reported registers, provided no register slot has two entries (which `AuxHashMap::mustAdd` enforces). -/
+theorem project_hll_aux_perm (c : Consts) (s : HllImg) (aux' : List Nat) (hp : aux'.Perm s.aux)
+    (hu : ∀ i, ∀ a ∈ s.aux, ∀ b ∈ s.aux,
+      (a != 0 && (a % 2 ^ c.keyBits) % 2 ^ s.h.lgK == i) = true → (b != 0 && (b % 2 ^ c.keyBits) % 2 ^ s.h.lgK == i) = true → a = b) :
+    project c (.hll { s with aux := aux' }) = project c (.hll s) := by
+  have hf : ∀ i, auxFind c.keyBits s.h.lgK aux' i = auxFind c.keyBits s.h.lgK s.aux i := by
+    intro i
+    unfold auxFind
+    rw [find?_perm_of_unique _ hp.symm (hu i)]
+  have hr : ∀ i, regAt c { s with aux := aux' } i = regAt c s i := by
+    intro i
+    simp only [regAt, reg4, reg6, reg8, hf]
+  have hm : (List.range (2 ^ s.h.lgK)).map (regAt c { s with aux := aux' }) = (List.range (2 ^ s.h.lgK)).map (regAt c s) :=
+    List.map_congr_left (fun i _ => hr i)
+  simp only [project, regsStr]
+  rw [hm]
 
 /-! ### non-vacuity: concrete well-formed images of every kind (constants of the current headers) -/
 
@@ -92,6 +118,12 @@ example : (encode genConsts exSet).length = 140 ∧ (encode genConsts exHll4Upd)
   rw [size_eq _ _ (by decide), size_eq _ _ (by decide)]; decide
 example : genConsts.lgInitListSize ≤ 3 ∧ exSet.hdr.compact genConsts = false ∧ auxNotGrown genConsts exSet ∧
     exHll4Upd.hdr.compact genConsts = false ∧ auxNotGrown genConsts exHll4Upd := by decide
+
+/-- the set image of `exSet` with its table reversed: same API content -/
+def exSetImg : SetImg := { h := { lgK := 8, lgArr := 5, flags := 8, b6 := 0, mode := 1 }, count := 3,
+                           slots := [0x04000021, 0x08000004, 0x0c000109] }
+example : project genConsts (.set { exSetImg with slots := exSetImg.slots.reverse }) = project genConsts (.set exSetImg) :=
+  project_set_perm genConsts exSetImg _ (List.reverse_perm _)
 
 /-- The full bound is false for the current layout: an updatable HLL_4 image (lg_k 4) with 4 exceptions has 80 bytes,
 the published maximum is 64 (documented exception; the harness replays such a state on the real sketch). -/
